@@ -534,6 +534,108 @@ def r10_index_mut_from(body: Text, types=('buf',)):
     body.sub_code('R10', r'&mut\s+(\w+)\[(\w+)\.\.\]', r'\1.verif_index_mut_from(\2)')
 
 
+def r15_bytes_match(body: Text):
+    """R15: `match EXPR { b"lit" [if G] => A, .., name => D }` (byte-string literal patterns crash this Verus build, slice
+    patterns are unsupported) becomes the first-match if-chain
+    `{ let verif_scrutinee = EXPR; if verif_bytes_eq(verif_scrutinee, "lit") [&& (G)] { A } else if .. else { let name = verif_scrutinee; D } }`
+    where verif_bytes_eq(a, "lit") is `a == b"lit"` (ASCII literals only)."""
+    n = 0
+    while True:
+        t = body.t
+        code = code_mask(t)
+        target = None
+        for m in re.finditer(r'\bmatch\b', t):
+            if not code[m.start()]:
+                continue
+            # scrutinee up to the `{` at depth 0
+            i = m.end()
+            depth = 0
+            while i < len(t):
+                if code[i]:
+                    if t[i] in '([':
+                        depth += 1
+                    elif t[i] in ')]':
+                        depth -= 1
+                    elif t[i] == '{' and depth == 0:
+                        break
+                i += 1
+            end = match_brace(t, code, i)
+            inner = t[i + 1:end - 1]
+            if re.search(r'(^|[\s|(])b"', inner) and re.search(r'^\s*b"', inner):
+                target = (m.start(), m.end(), i, end)
+                break
+        if not target:
+            return n
+        ms, me, bo, be = target
+        scrut = t[me:bo].strip()
+        # split arms
+        arms = []
+        i = bo + 1
+        while True:
+            while i < be - 1 and t[i].isspace():
+                i += 1
+            if i >= be - 1:
+                break
+            # pattern (+guard) up to `=>`
+            j = i
+            depth = 0
+            while not (code[j] and depth == 0 and t.startswith('=>', j)):
+                if code[j]:
+                    if t[j] in '([{':
+                        depth += 1
+                    elif t[j] in ')]}':
+                        depth -= 1
+                j += 1
+            head = t[i:j].strip()
+            k = j + 2
+            while t[k].isspace():
+                k += 1
+            if t[k] == '{':
+                e = match_brace(t, code, k)
+                arm_body = t[k:e]
+                k = e
+                while k < be - 1 and t[k].isspace():
+                    k += 1
+                if t[k] == ',':
+                    k += 1
+            else:
+                e = k
+                depth = 0
+                while e < be - 1 and not (code[e] and depth == 0 and t[e] == ','):
+                    if code[e]:
+                        if t[e] in '([{':
+                            depth += 1
+                        elif t[e] in ')]}':
+                            depth -= 1
+                    e += 1
+                arm_body = '{ ' + t[k:e].strip() + ' }'
+                k = e + 1
+            arms.append((head, arm_body))
+            i = k
+        out = ['{ let verif_scrutinee = %s;' % scrut]
+        first = True
+        for head, arm_body in arms:
+            mg = re.match(r'(b"(?:[^"\\]|\\.)*")\s*(?:if\s+(.*))?$', head, re.S)
+            if mg:
+                lit = mg.group(1)[1:]
+                if '\\' in lit or not all(32 <= ord(ch) < 127 for ch in lit):
+                    raise Infra('R15: byte-string literal with escapes / non-ASCII: %s' % lit)
+                # b"lit" is compared through the str literal "lit" (same ASCII bytes): Verus knows string literals, not byte strings
+                cond = 'verif_bytes_eq(verif_scrutinee, %s)' % lit
+                if mg.group(2):
+                    cond += ' && (%s)' % mg.group(2).strip()
+                out.append(('if ' if first else 'else if ') + cond + ' ' + arm_body)
+                first = False
+            elif re.match(r'^[a-z_]\w*$', head):
+                bind = '' if head == '_' else 'let %s = verif_scrutinee; ' % head
+                out.append('else { ' + bind + arm_body + ' }')
+            else:
+                raise Infra('R15: unsupported arm pattern %r' % head)
+        out.append('}')
+        body.edit('R15', ms, be, '\n'.join(out), 'match on byte-string literals')
+        n += 1
+
+
 def r5_mut_self(sig: Text, body: Text):
     m = re.search(r'\(\s*mut\s+self\s*[,)]', sig.t)
     if not m:
@@ -643,6 +745,7 @@ class Unit:
             t.sub_code('R7', r'pub\(crate\)\s*', 'pub ')
             if not t.t.lstrip().startswith('pub'):
                 t.edit('R7', 0, 0, 'pub ')
+            t.sub_code('R16', r":\s*&str\b", ": &'static str")
         for e in edits or []:
             e(t)
         t.check_reversible()
@@ -934,7 +1037,7 @@ def _closure_contract(body: Text, k, spec):
 VERIF_ERRORS = ('postcondition not satisfied', 'precondition not satisfied', 'invariant not satisfied',
                 'assertion failed', 'possible arithmetic underflow/overflow', 'possible division by zero',
                 'possible bit shift', 'index out of bounds', 'cannot show', 'unreachable', 'decreases not satisfied',
-                'loop invariant', 'recommendation not met', 'could not show termination', 'failed to prove',
+                'loop invariant', 'recommendation not met', 'could not show termination', 'failed to prove', 'unable to prove',
                 'constructed value may fail to meet its declared type invariant', 'panic')
 
 
